@@ -10,11 +10,11 @@ translator; (2) every recorded leg of every traced run replayed in the Lean acti
 effect footprints) evaluated on every recorded commit.
 Oracle: `runs.oracle_c09` (the property statement on recorded runs) on every trace; for a wiring whose obligation is broken
 additionally on 3–6 more runs of that configuration (more seeds, more particles, larger leg cap)."""
-from harness import runs, runcommon, actcorr, translate, fpcorr, sysinvcorr
+from harness import runs, runcommon, actcorr, translate, fpcorr, fpcorr2, sysinvcorr
 
 ID = "C09"
 NEEDS_GEN = True
-THEOREM_MODULES = ["JF.Props.C09", "JF.Props.Footprints", "JF.Props.SystemInv", "JF.Gen.WiringsSound"]
+THEOREM_MODULES = ["JF.Props.C09", "JF.Props.Footprints", "JF.Props.Footprints2", "JF.Props.SystemInv", "JF.Gen.WiringsSound"]
 COMPONENTS = ["act"]
 ASSUMPTIONS = [
     "footprint tables (JF/Model/Wiring.lean: `affects`, `reads`) are hypotheses of the link theorem (`FootprintsSound`); for point-mass "
@@ -109,6 +109,10 @@ def run(ctx, which=WHICH, oracle=None, per_trace=None):
                 fpcorr.check_trace(ctx, tr, w)
             except Exception as e:
                 ctx.disagree("fp.check-trace", {"ini": meta["ini"], "job": tr.get("job")}, "evaluated", repr(e))
+            try:
+                fpcorr2.check_trace(ctx, tr, w)     # composite objects without a cell system: the world of JF.Props.Footprints2
+            except Exception as e:
+                ctx.disagree("fp2.check-trace", {"ini": meta["ini"], "job": tr.get("job")}, "evaluated", repr(e))
             try:
                 sysinvcorr.check_trace(ctx, tr)     # hypotheses of JF.Props.SystemInv (CandOK, TieFree) measured on the run
             except Exception as e:
